@@ -239,7 +239,8 @@ class KeyCache(t.Generic[P, T]):
 
         result = self.inner_f(*args, **kwargs)
         with self._lock:
-            if key in self.cache:
+            if key in self.cache or self.maxsize == 0:
+                # nothing to retain (a cache of size 0 is a plain call, as in functools.lru_cache)
                 pass
             elif self.full:
                 # turn the oldest link into the new root
